@@ -33,6 +33,10 @@ def p_flow(func):
         for n in ast.walk(e):
             if isinstance(n, ast.Subscript) and isinstance(n.value, ast.Name) and n.value.id == parg and isinstance(n.ctx, ast.Load) and isinstance(n.slice, ast.Constant) and isinstance(n.slice.value, int) and n.slice.value > 0:
                 out.add(n.slice.value)
+            # p.slice[i].<attr>: the token object of symbol i (its text as written, its type): also that symbol's value
+            if isinstance(n, ast.Subscript) and isinstance(n.value, ast.Attribute) and n.value.attr == "slice" and isinstance(n.value.value, ast.Name) and n.value.value.id == parg \
+                    and isinstance(n.slice, ast.Constant) and isinstance(n.slice.value, int) and n.slice.value > 0:
+                out.add(n.slice.value)
         return out
 
     names = {}
